@@ -508,6 +508,18 @@ def gen_cases(ctx):
     return cases
 
 
+# NOT part of the enumeration (the monitors of the pause / play hooks assume that nothing but the schedule pauses or plays): a pause
+# / play hook failing while a LISTENER interferes with the pause that is being enacted.  The model (`pmodel faultrun`) agrees with
+# the code on all 528 such cases (PAUSE_HOOKS x occurrence <= 2 x before/after x the 22 plans x 2 schedules), and both show a
+# defect: when the pending pause action performs the step's transition, a listener of that transition calls kill() (which
+# supersedes, i.e. cancels, the pause action that is running) and on_pausing / on_paused then raises, `CancellableAction.run`
+# re-raises ("cancelled while it was running, there is no one left to report to"), the exception leaves `Process.step` and the
+# stepping task dies with it: the process stays RUNNING, the kill action is cancelled by the `finally`, `_killing` keeps pointing at
+# it.  Lean witness: `PMF.FP.C03_witness_superseded_pause_action_escapes` (Props/C03.lean).
+NESTED_WITNESS = dict(fault=('hook', 'on_pausing', 1, 'before'), schedule={1: ['pause'], 4: ['play']},
+                      plan=[(('on_process_running', 2), 'kill')])
+
+
 def _work(case):
     if case['fault'] is not None and case['fault'][0] == 'construct':
         return run_construct(case), None
